@@ -137,7 +137,7 @@ sens("R4-settle-le", "R4", "R4/settle", (SCHED, "        if sim.next_steps and s
 sens("R4-settle-until-le", "R4", "R4/settle", (SCHED, "    while sim.progress.time.time < world.until:", "    while sim.progress.time.time <= world.until:"))
 sens("R4-wait-no-event", "R4", "R4/wait", (SCHED, "                asyncio.create_task(sim.newer_step.wait()),\n", ""))
 sens("R4-wait-all", "R4", "R4/wait", (SCHED, '                    return_when="FIRST_COMPLETED",\n                    timeout=world.rt_factor,', '                    return_when="ALL_COMPLETED",'))
-sens("R4-wait-empty-target", "R4", "R4/wait", (SCHED, "await_time = sim.next_steps[0] if sim.next_steps else TieredTime(world.until) + sim.from_world_time", "await_time = sim.next_steps[0] if sim.next_steps else sim.progress.time"))
+sens("R4-wait-empty-target", "R4", "R4/wait", (SCHED, "await_time = min(sim.next_steps[0], end) if sim.next_steps else end", "await_time = sim.next_steps[0] if sim.next_steps else sim.progress.time"))
 sens("R4-clear-before-wait", "R4", "R4/wait", (SCHED, "            tasks = [\n                asyncio.create_task(sim.progress.has_reached(await_time)),", "            sim.newer_step.clear()\n            tasks = [\n                asyncio.create_task(sim.progress.has_reached(await_time)),"), (SCHED, "                    task.cancel()\n            sim.newer_step.clear()\n", "                    task.cancel()\n"))
 sens("R4-clear-then-sleep", "R4", "R4/wait", (SCHED, "            sim.newer_step.clear()\n            if world.rt_factor:", "            sim.newer_step.clear()\n            await asyncio.sleep(0)\n            if world.rt_factor:"))
 sens("R4-rt-no-advance", "R4", "R4/wait", (SCHED, "            if world.rt_factor:\n                advance_progress(sim, world)\n    return False", "    return False"))
@@ -193,14 +193,14 @@ sens("R20-dest-check-triggers", "R20", "R20/reject", (SCEN, "        if dest_att
 sens("R20-no-dest-check", "R20", "R20/reject", (SCEN, "        if dest_attr not in dest.model_mock.input_attrs:\n            problems.append(\n                \"the destination attribute does not exist\"\n            )\n", ""))
 sens("R20-valueerror", "R20", "R20/exc", (SCEN, "        if problems:\n            raise ScenarioError(", "        if problems:\n            raise ValueError("))
 sens("R20-effect-before-raise", "R20", "R20/R10", (SCEN, "        problems: List[str] = []\n", "        problems: List[str] = []\n        src_sim.output_request.setdefault(src.eid, []).append(src_attr)\n"), (SCEN, "\n        src_sim.output_request.setdefault(src.eid, []).append(src_attr)\n\n        if is_pulled:", "\n        if is_pulled:"))
-sens("R20-successors-not-weak", "R20", "R20/table", (SCEN, "        src_sim.successors[dest_sim] = connect_interval(src_group, dest_group)\n", "        if not weak:\n            src_sim.successors[dest_sim] = connect_interval(src_group, dest_group)\n"))
-sens("R20-triggers-unconditional", "R20", "R20/table", (SCEN, "        if dest.triggered_by(dest_attr):\n            src_sim.triggers", "        if True:\n            src_sim.triggers"))
+sens("R20-successors-not-weak", "R20", "R20/table/", (SCEN, "        src_sim.successors[dest_sim] = connect_interval(src_group, dest_group)\n", "        if not weak:\n            src_sim.successors[dest_sim] = connect_interval(src_group, dest_group)\n"))
+sens("R20-triggers-unconditional", "R20", "R20/table/", (SCEN, "        if dest.triggered_by(dest_attr):\n            src_sim.triggers", "        if True:\n            src_sim.triggers"))
 sens("R20-triggers-no-shift", "R20", "R20/delay", (SCEN, "            src_sim.triggers.setdefault(src_port, []).append((dest_sim, delay))", "            src_sim.triggers.setdefault(src_port, []).append((dest_sim, connect_interval(src_group, dest_group)))"))
 sens("R20-successors-delay", "R20", "R20/delay", (SCEN, "        src_sim.successors[dest_sim] = connect_interval(src_group, dest_group)\n", "        src_sim.successors[dest_sim] = delay\n"))
 sens("R20-swapped-groups", "R20", "R20/delay", (SCEN, "        delay = connect_interval(src_group, dest_group, int(time_shifted), int(weak))", "        delay = connect_interval(dest_group, src_group, int(time_shifted), int(weak))"))
 sens("R20-drop-weak", "R20", "R20/delay", (SCEN, "        delay = connect_interval(src_group, dest_group, int(time_shifted), int(weak))", "        delay = connect_interval(src_group, dest_group, int(time_shifted))"))
 sens("R20-init-cache-key", "R20", "R20/delay", (SCEN, "                    -int(time_shifted), {}", "                    -1, {}"))
-sens("R20-push-persistent", "R20", "R20/table", (SCEN, "        is_pulled = src_sim.outputs is not None and src.is_persistent(src_attr)", "        is_pulled = src_sim.outputs is not None"))
+sens("R20-push-persistent", "R20", "R20/table/", (SCEN, "        is_pulled = src_sim.outputs is not None and src.is_persistent(src_attr)", "        is_pulled = src_sim.outputs is not None"))
 sens("R20-connect-drop-weak", "R20", "R20/connect", (SCEN, "                    time_shifted=time_shifted,\n                    weak=weak,\n", "                    time_shifted=time_shifted,\n"))
 sens("R20-async-no-wait", "R20", "R20/async", (SCEN, "        src_sim.successors_to_wait_for[dest_sim] = delay\n", ""))
 sens("R20-async-no-input-delay", "R20", "R20/async", (SCEN, "        dest_sim.input_delays[src_sim] = delay\n", ""))
@@ -227,3 +227,41 @@ sens("R19-extra-writer", "R19", "R19/writers", (SCEN, "        sim.next_steps = 
 sens("R19-path-missing", "R19", "R19/zero", (SCEN, '                    f"Your scenario contains cycles, for example: {path}."', '                    "Your scenario contains cycles."'))
 spec("R19s-rename", "R19", (SCEN, "            if all(t == 0 for t in delay.tiers):", "            if all(0 == tier for tier in delay.tiers):"))
 spec("R19s-set-comp", "R19", (SCEN, "        dirty: Set[SimRunner] = set(self.sims.values())", "        dirty: Set[SimRunner] = {s for s in self.sims.values()}"))
+sens("R4-revert-D23", "R4", "R4/wait", (SCHED, "await_time = min(sim.next_steps[0], end) if sim.next_steps else end", "await_time = sim.next_steps[0] if sim.next_steps else end"))
+spec("R4s-min-bag", "R4", (SCHED, "await_time = min(sim.next_steps[0], end) if sim.next_steps else end", "await_time = min([*([sim.next_steps[0]] if sim.next_steps else []), end])"))
+sens("R12-tuple-compare", "R3", "R3/R12", (SCHED, "            if any(\n                t >= world.max_loop_iterations for t in sim.current_step.tiers[1:]\n            ):", "            if sim.current_step.tiers[1:] >= (world.max_loop_iterations,):"))
+
+# ----------------------------------------------------------------------------- R22
+sens("R22-sub-outset", "R22", "R22/op", (IOS, "            return other._set - self._set", "            return self._set - other._set"))
+sens("R22-sub-fin", "R22", "R22/op", (IOS, "            return OutSet(self._set | other)", "            return OutSet(self._set - other)"))
+sens("R22-rsub", "R22", "R22/op", (IOS, "        return rother & self._set", "        return rother - self._set"))
+sens("R22-and-outset", "R22", "R22/op", (IOS, "            return OutSet(self._set | other._set)", "            return OutSet(self._set & other._set)"))
+sens("R22-and-fin", "R22", "R22/op", (IOS, "            return other - self._set", "            return other & self._set"))
+sens("R22-rand", "R22", "R22/op", (IOS, "        return rother - self._set", "        return rother & self._set"))
+sens("R22-or-outset", "R22", "R22/op", (IOS, "            return OutSet(self._set & other._set)", "            return OutSet(self._set | other._set)"))
+sens("R22-or-fin", "R22", "R22/op", (IOS, "            return OutSet(self._set - other)", "            return OutSet(self._set | other)"))
+sens("R22-ror", "R22", "R22/op", (IOS, "        return OutSet(self._set - rother)", "        return OutSet(rother - self._set)"))
+sens("R22-or-kind", "R22", "R22/op", (IOS, "            return OutSet(self._set - other)", "            return self._set - other"))
+sens("R22-contains", "R22", "R22/op", (IOS, "        return item not in self._set", "        return item in self._set"))
+sens("R22-eq-any", "R22", "R22/op", (IOS, "        if not isinstance(other, OutSet):\n            return False", "        if not isinstance(other, OutSet):\n            return not self._set and not other"))
+sens("R22-triple-cover-simplified", "R22", "R22/triple", (IOS, "    if not union == (part_a | part_b):", "    if not union - part_a == part_b:"))
+sens("R22-triple-infer-a", "R22", "R22/triple", (IOS, "            part_a = union - part_b", "            part_a = union"))
+sens("R22-triple-infer-b", "R22", "R22/triple", (IOS, "        part_b = union - part_a", "        part_b = part_a - union"))
+sens("R22-triple-no-disjoint", "R22", "R22/triple", (IOS, "    if not part_a & part_b == frozenset():", "    if False:"))
+sens("R22-triple-swap-return", "R22", "R22/triple", (IOS, "    return part_a, part_b", "    return part_b, part_a"))
+sens("R22-triple-missing", "R22", "R22/triple", (IOS, "        if part_b is not None:\n            part_a = union - part_b\n        else:\n            raise missing_value_error", "        if part_b is not None:\n            part_a = union - part_b\n        else:\n            part_a = union"))
+sens("R22-hybrid-default-attrs", "R22", "R22/defaults", (SCEN, "        default_measurements = None if 'trigger' in model_desc else inputs", "        default_measurements = None if 'trigger' in model_desc else wrap_set(model_desc.get('attrs'))"))
+sens("R22-tb-default-swap", "R22", "R22/defaults", (SCEN, "    if type == 'time-based':\n        default_measurements = None\n        default_events = empty", "    if type == 'time-based':\n        default_measurements = empty\n        default_events = None"))
+sens("R22-any-inputs-outputs", "R22", "R22/defaults", (SCEN, "    outputs = wrap_set(model_desc.get('attrs'))", "    outputs = inputs"))
+sens("R22-eb-persistent-default", "R22", "R22/defaults", (SCEN, "    default_measurements = empty if type == 'event-based' else None\n    measurement_outputs", "    default_measurements = None\n    measurement_outputs"))
+sens("R22-forbidden-swap", "R22", "R22/forbidden", (SCEN, "    if type == 'time-based' and event_outputs != frozenset():", "    if type == 'time-based' and measurement_outputs != frozenset():"))
+sens("R22-forbidden-drop", "R22", "R22/forbidden", (SCEN, "    if type == 'event-based' and measurement_inputs != frozenset():", "    if type == 'hybrid' and measurement_inputs != frozenset():"))
+sens("R22-tuple-order", "R22", "R22/tuple", (SCEN, "    return measurement_inputs, event_inputs, measurement_outputs, event_outputs", "    return event_inputs, measurement_inputs, measurement_outputs, event_outputs"))
+sens("R22-triggered-by-meas", "R22", "R22/readers", (SCEN, "        return attr in self.model_mock.event_inputs", "        return attr in self.model_mock.input_attrs"))
+spec("R22s-hoist-attrs", "R22", (SCEN, "        inputs = wrap_set(model_desc.get('attrs'))\n    empty", "        attrs = wrap_set(model_desc.get('attrs'))\n        inputs = attrs\n    empty"))
+spec("R22s-cover-flip", "R22", (IOS, "    if not union == (part_a | part_b):", "    if (part_b | part_a) != union:"))
+spec("R22s-or-commute", "R22", (IOS, "            return OutSet(self._set & other._set)", "            return OutSet(other._set & self._set)"))
+sens("R6-flags-swapped", "R6", "R6/ti-lt", (TT, "            s_add_o_ext = other.cutoff <= i < self.cutoff\n            o_add_s_ext = self.cutoff <= i < other.cutoff", "            s_add_o_ext = self.cutoff <= i < other.cutoff\n            o_add_s_ext = other.cutoff <= i < self.cutoff"))
+sens("R6-no-incomparable", "R6", "R6/ti-lt", (TT, "                if s_add_o_ext:\n                    assert False, f\"{self} and {other} are incomparable\"\n                return True", "                return True"))
+sens("R6-hand-gt", "R6", "R6/class", (TT, "@functools.total_ordering\n@dataclass(frozen=True)\nclass TieredInterval:", "@dataclass(frozen=True)\nclass TieredInterval:"), (TT, "    def __repr__(self):\n        return (\n            f\"{':'.join(map(str, self.add))}", "    def __le__(self, other):\n        return self < other or self == other\n\n    def __gt__(self, other):\n        return not self < other\n\n    def __ge__(self, other):\n        return not self < other\n\n    def __repr__(self):\n        return (\n            f\"{':'.join(map(str, self.add))}"))
+spec("R6s-hand-ops-right", "R6", (TT, "@functools.total_ordering\n@dataclass(frozen=True)\nclass TieredInterval:", "@dataclass(frozen=True)\nclass TieredInterval:"), (TT, "    def __repr__(self):\n        return (\n            f\"{':'.join(map(str, self.add))}", "    def __le__(self, other):\n        return self < other or self == other\n\n    def __gt__(self, other):\n        return other < self\n\n    def __ge__(self, other):\n        return not self < other\n\n    def __repr__(self):\n        return (\n            f\"{':'.join(map(str, self.add))}"))
